@@ -403,7 +403,7 @@ def stream_cachefs(ctx: Ctx) -> Stream:
 		for rec in load_corpus():
 			if rec.get('stream') == 'cachefs':
 				cases.append(case_cachefs(ctx, rng, lib, 0, bool(rec.get('seeded', True)), corpus_ops=rec['ops'], shape=rec['shape'], variants=rec['variants']))
-		n = ctx.scale(12, 100)
+		n = ctx.scale(12, 80)
 		for i in range(n):
 			seeded = (i % 5) != 0
 			cases.append(case_cachefs(ctx, rng, lib, ctx.scale(9, 16) if seeded else ctx.scale(5, 8), seeded))
@@ -502,7 +502,7 @@ def search_warm_cold(ctx: Ctx, only: list[tuple[str, dict[str, int], list[list[s
 	n_random = ctx.scale(8, 120) if only is None else 0
 	hist: dict[str, int] = {}
 	seen: set[str] = set()
-	budget_runs = ctx.scale(64, 900)
+	budget_runs = ctx.scale(64, 700)
 	runs = 0
 	for hi in range(len(histories) + n_random):
 		if runs >= budget_runs:
@@ -623,8 +623,8 @@ def search_truncation(ctx: Ctx, only: dict[str, Any] | None = None) -> SearchRes
 		shutil.rmtree(case.proj.root, ignore_errors=True)
 
 	# (2) whole runs over a damaged cache
-	n_states = ctx.scale(2, 6)
-	per_state = ctx.scale(14, 80)
+	n_states = ctx.scale(2, 5)
+	per_state = ctx.scale(14, 50)
 	if only is not None:
 		n_states = 1 if only.get('search') == 'truncation-run' else 0
 	for si in range(n_states):
@@ -648,7 +648,7 @@ def search_truncation(ctx: Ctx, only: dict[str, Any] | None = None) -> SearchRes
 		if ctx.thorough and si == 0:
 			for rel in files:
 				if rel.startswith(f'{PKG}/') and sizes[rel] <= 4096:
-					targets.extend((rel, k) for k in range(0, sizes[rel], 7))
+					targets.extend((rel, k) for k in range(0, sizes[rel], 11))
 		for _ in range(per_state if only is None else 0):
 			rel = rng.choice(files if rng.random() < 0.4 else [f for f in files if f.startswith(f'{PKG}/')])
 			targets.append((rel, rng.choice([0, 1, sizes[rel] - 1, sizes[rel] - 2, rng.randrange(sizes[rel])])))
@@ -789,7 +789,7 @@ def run(ctx: Ctx) -> int:
 			searches = [search_warm_cold(ctx), search_truncation(ctx), search_disabled(ctx)]
 	return common.finish(ctx, proof, streams, searches, statements=STATEMENTS,
 		partial={
-			'sentence 1 (warm output = cold output)': 'proved on the model for the tree layer (tree_key) and — under DirectOnly or with the closure-keyed identity — for the symbol layer (symbols_partial*); FALSE in general (symbols_counterexample = F5). Proved per module: tree and symbol table of the warm run = those of the cold run; that the rendered text (a function of the tree and of the session's tables in load order) is equal is checked by the search only; the parser cache (pickle) is correspondence/search only',
+			'sentence 1 (warm output = cold output)': 'proved on the model for the tree layer (tree_key) and — under DirectOnly or with the closure-keyed identity — for the symbol layer (symbols_partial*); FALSE in general (symbols_counterexample = F5). Proved per module: tree and symbol table of the warm run = those of the cold run; that the rendered text (a function of the tree and of the tables of the session in load order) is equal is checked by the search only; the parser cache (pickle) is correspondence/search only',
 			'sentence 1 (no cache file read or written when disabled)': 'FALSE on the code (disabled_counterexample = F4); proved for the gated store (disabled_partial)',
 			'sentence 2 (damaged file: rebuild or fail)': 'truncate (JSON printer model) + Hyp.prefix_invalid inside tree_key/symbols_partial (histories contain trunc ops); pickle truncation is search only',
 			'search_only': 'failure status equality warm/cold; output text of the real renderer',
